@@ -8,13 +8,18 @@
 //          that needs escaping, an ordinary run with one special character, or alternating blocks.  A test may also fail
 //          by a real STRCMP_EQUAL of two long strings (the message built by the framework holds both operands).
 //          Group names are never empty (DESIGN A.5).
-// Execution: a REAL run: TestRegistry::runAllTests with a TeamCityTestOutput subclass that only captures printBuffer.
+//          The registry is run 1..3 times against the SAME output object with a fresh TestResult per pass (what
+//          CommandLineTestRunner does for -rN), the order optionally reversed or re-shuffled before a pass; one case in three
+//          goes through a real CommandLineTestRunner subclass with argv "-oteamcity [-rN] [-ri] [-b] [-sSEED]".
+// Execution: a REAL run: TestRegistry::runAllTests with a TeamCityTestOutput subclass that only captures printBuffer
+//          (and notes which tests the registry announced in which pass: the order after a shuffle is an input, not a result).
 // Oracle:  an independent decoder of the service-message grammar; the decoded message sequence must equal the sequence
 //          the script implies (suite start/finish paired by name around its tests, test start/finish paired by name,
 //          testIgnored exactly for tests that are not run, every testFailed between start and finish of its own test,
 //          every decoded value equal to the original text).
 #include "common.h"
 #include "CppUTest/TeamCityTestOutput.h"
+#include "CppUTest/CommandLineTestRunner.h"
 #include <memory>
 #include <algorithm>
 
@@ -29,7 +34,14 @@ const char* const KEY_FILE = "C20:test-file-unescaped-in-failed-message";
 struct Step { bool exits; std::string text, file; uint32_t line; bool strcmp = false; std::string op2; };
 // FAIL(text) at (file,line); exits == leaves the phase (the normal FAIL); strcmp: STRCMP_EQUAL(text, op2) at (file,line) instead
 struct TestM { std::string group, name, file; uint32_t line = 1; bool ignored = false; std::vector<Step> body, teardown; };
-struct CaseM { bool runIgnored = false; std::vector<TestM> tests; };   // in run order; a suite = maximal run of equal group names
+struct CaseM {
+    bool runIgnored = false;
+    std::vector<TestM> tests;          // in registration order; a suite = maximal run of equal group names in the order of a pass
+    uint32_t passes = 1;               // runs of the registry against the same output object
+    bool viaRunner = false;            // through CommandLineTestRunner (-rN ...) instead of the harness's own loop
+    uint32_t op[3] = {0, 0, 0};        // before pass p: 0 keep, 1 reverse, 2 shuffle (runner: op[0] only; -b once, -s before every pass)
+    uint32_t shuffleSeed = 1;
+};
 
 struct Event {
     enum Kind { SuiteStart, SuiteFinish, TestStart, TestIgnored, TestFailed, TestFinish } kind;
@@ -154,6 +166,10 @@ Step gen_strcmp_step(Reader& r, const TestM& t) {
 CaseM decode(Reader& r) {
     CaseM c;
     c.runIgnored = r.below(4) == 1;
+    { uint32_t v = r.below(6); c.passes = v <= 2 ? 1 : (v <= 4 ? 2 : 3); }
+    c.viaRunner = r.below(3) == 2;
+    for (uint32_t p = 0; p < c.passes; p++) { uint32_t v = r.below(4); c.op[p] = v <= 1 ? 0 : v - 1; }
+    if (c.op[0] == 2 || c.op[1] == 2 || c.op[2] == 2) c.shuffleSeed = 1 + r.below(200);
     uint32_t ng = 1 + r.below(5);
     std::vector<std::string> names;
     for (uint32_t g = 0; g < ng; g++) {
@@ -202,12 +218,10 @@ std::string W(const std::string& line, size_t col) {
 }
 
 // the message sequence the script implies, by the meaning of the run alone
-std::vector<Event> expected_events(const CaseM& c, size_t& suites) {
-    std::vector<Event> ev;
-    suites = 0;
-    for (size_t i = 0; i < c.tests.size(); i++) {
-        const TestM& t = c.tests[i];
-        if (i == 0 || c.tests[i - 1].group != t.group) { Event e; e.kind = Event::SuiteStart; e.name = t.group; ev.push_back(e); suites++; }
+void expected_events(const CaseM& c, const std::vector<const TestM*>& order, std::vector<Event>& ev, size_t& suites) {
+    for (size_t i = 0; i < order.size(); i++) {
+        const TestM& t = *order[i];
+        if (i == 0 || order[i - 1]->group != t.group) { Event e; e.kind = Event::SuiteStart; e.name = t.group; ev.push_back(e); suites++; }
         { Event e; e.kind = Event::TestStart; e.name = t.name; ev.push_back(e); }
         bool executed = !t.ignored || c.runIgnored;
         if (!executed) { Event e; e.kind = Event::TestIgnored; e.name = t.name; ev.push_back(e); }
@@ -224,9 +238,8 @@ std::vector<Event> expected_events(const CaseM& c, size_t& suites) {
                     if (s.exits) break;
                 }
         { Event e; e.kind = Event::TestFinish; e.name = t.name; ev.push_back(e); }
-        if (i + 1 == c.tests.size() || c.tests[i + 1].group != t.group) { Event e; e.kind = Event::SuiteFinish; e.name = t.group; ev.push_back(e); }
+        if (i + 1 == order.size() || order[i + 1]->group != t.group) { Event e; e.kind = Event::SuiteFinish; e.name = t.group; ev.push_back(e); }
     }
-    return ev;
 }
 
 // ---------------------------------------------------------------- execution against the real framework
@@ -256,32 +269,69 @@ struct IgnoredShell : IgnoredUtestShell {
     explicit IgnoredShell(const TestM* tm) : IgnoredUtestShell(tm->group.c_str(), tm->name.c_str(), tm->file.c_str(), tm->line), t(tm) {}
     Utest* createTest() CPPUTEST_OVERRIDE { return new ScriptedTest(t); }
 };
+// sinks of the case being executed (the runner owns and deletes its output object)
+std::string g_out;
+std::vector<std::string> g_messages;                    // the failure texts handed to the output (its input), in order
+std::vector<std::vector<const TestM*>> g_announced;     // per pass: the tests the registry announced, in order
+
+const TestM* model_of(const UtestShell& test);
+
 struct CapturingTeamCity : TeamCityTestOutput {
-    std::string out;
-    std::vector<std::string>* messages = nullptr;   // the failure texts handed to the output (its input), in order
-    void printBuffer(const char* s) CPPUTEST_OVERRIDE { out += s; }
+    void printBuffer(const char* s) CPPUTEST_OVERRIDE { g_out += s; }
     void flush() CPPUTEST_OVERRIDE {}
     void printFailure(const TestFailure& f) CPPUTEST_OVERRIDE {
-        if (messages) messages->push_back(f.getMessage().asCharString());
+        g_messages.push_back(f.getMessage().asCharString());
         TeamCityTestOutput::printFailure(f);
     }
+    void printTestsStarted() CPPUTEST_OVERRIDE { g_announced.emplace_back(); TeamCityTestOutput::printTestsStarted(); }
+    void printCurrentTestStarted(const UtestShell& test) CPPUTEST_OVERRIDE {
+        if (!g_announced.empty()) g_announced.back().push_back(model_of(test));
+        TeamCityTestOutput::printCurrentTestStarted(test);
+    }
+};
+const TestM* model_of(const UtestShell& test) {
+    if (const Shell* a = dynamic_cast<const Shell*>(&test)) return a->t;
+    if (const IgnoredShell* b = dynamic_cast<const IgnoredShell*>(&test)) return b->t;
+    return nullptr;
+}
+struct Runner : CommandLineTestRunner {
+    Runner(int ac, const char* const* av, TestRegistry* reg) : CommandLineTestRunner(ac, av, reg) {}
+    TestOutput* createTeamCityOutput() CPPUTEST_OVERRIDE { return new CapturingTeamCity; }
 };
 
-std::string execute(const CaseM& c, std::vector<std::string>& messages) {
+int execute(const CaseM& c) {
     verif::fake_millis_value = 0;
+    g_out.clear(); g_messages.clear(); g_announced.clear();
     std::vector<std::unique_ptr<UtestShell>> shells;
     for (auto& t : c.tests) {
         if (t.ignored) shells.emplace_back(new IgnoredShell(&t));
         else shells.emplace_back(new Shell(&t));
     }
-    CapturingTeamCity out;
-    out.messages = &messages;
-    TestResult result(out);
     TestRegistry reg;
-    if (c.runIgnored) reg.setRunIgnored();
     for (size_t i = shells.size(); i-- > 0;) reg.addTest(shells[i].get());   // addTest prepends
-    reg.runAllTests(result);
-    return out.out;
+    if (c.viaRunner) {
+        std::vector<std::string> args = {"harness", "-oteamcity"};
+        if (c.passes > 1) args.push_back("-r" + std::to_string(c.passes));
+        if (c.runIgnored) args.push_back("-ri");
+        if (c.op[0] == 1) args.push_back("-b");
+        if (c.op[0] == 2) args.push_back("-s" + std::to_string(c.shuffleSeed));
+        std::vector<const char*> av;
+        for (auto& a : args) av.push_back(a.c_str());
+        Runner runner((int)av.size(), av.data(), &reg);
+        runner.runAllTestsMain();
+        UtestShell::setRethrowExceptions(false);
+        return 0;
+    }
+    CapturingTeamCity out;
+    if (c.runIgnored) reg.setRunIgnored();
+    for (uint32_t p = 0; p < c.passes; p++) {
+        if (c.op[p] == 1) reg.reverseTests();
+        if (c.op[p] == 2) reg.shuffleTests(c.shuffleSeed + p);
+        out.printTestRun(p + 1, c.passes);
+        TestResult result(out);          // a fresh result per pass, the same output object
+        reg.runAllTests(result);
+    }
+    return 0;
 }
 
 // ---------------------------------------------------------------- independent decoder of the service-message grammar
@@ -337,7 +387,7 @@ bool parse_message(const std::string& line, Msg& m, std::string& err, size_t& i)
 }
 
 std::string render(const CaseM& c) {
-    std::string o = sfmt("runIgnored=%d;", c.runIgnored);
+    std::string o = sfmt("runIgnored=%d passes=%u%s order=%u,%u,%u seed=%u;", c.runIgnored, c.passes, c.viaRunner ? " via CommandLineTestRunner" : "", c.op[0], c.op[1], c.op[2], c.shuffleSeed);
     for (auto& t : c.tests) {
         o += sfmt(" %s(\"%s\", \"%s\" @\"%s\":%u", t.ignored ? "IGNORE_TEST" : "TEST", P(t.group).c_str(), P(t.name).c_str(), P(t.file).c_str(), t.line);
         for (int ph = 0; ph < 2; ph++)
@@ -350,8 +400,29 @@ std::string render(const CaseM& c) {
 }
 
 int run_and_judge(const CaseM& c, bool useKnown, bool& nontrivial) {
+    execute(c);
+    std::string out; out.swap(g_out);
+    std::vector<std::string> messages; messages.swap(g_messages);
+    std::vector<std::vector<const TestM*>> announced; announced.swap(g_announced);
+    if (verif::g_explain) fprintf(stderr, "---- stream ----\n%s----\n", out.c_str());
+    // every pass has to announce every test exactly once (the order of a pass is the registry's business, C02)
+    V_CHECK(announced.size() == c.passes, "C20:pass-count", "%zu passes announced, %u requested", announced.size(), c.passes);
+    for (auto& pass : announced) {
+        std::vector<const TestM*> a(pass), b;
+        for (auto& t : c.tests) b.push_back(&t);
+        std::sort(a.begin(), a.end()); std::sort(b.begin(), b.end());
+        V_CHECK(a == b, "C20:pass-announces-other-tests", "a pass announced %zu tests, the registry holds %zu (or not each exactly once)", pass.size(), c.tests.size());
+    }
     size_t suites = 0;
-    std::vector<Event> ev = expected_events(c, suites);
+    std::vector<Event> ev;
+    for (auto& pass : announced) expected_events(c, pass, ev, suites);
+    verif::cls(sfmt("passes:%u%s", c.passes, c.viaRunner ? "-via-CommandLineTestRunner" : "").c_str());
+    if (c.passes > 1) {
+        bool sameEdge = false;
+        for (size_t p = 0; p + 1 < announced.size(); p++) if (!announced[p].empty() && announced[p].back()->group == announced[p + 1].front()->group) sameEdge = true;
+        if (sameEdge) verif::cls("pass-ends-and-next-starts-with-same-group");
+    }
+    for (uint32_t p = 0; p < c.passes; p++) if (c.op[p] && (!c.viaRunner || p == 0)) verif::cls(c.op[p] == 1 ? "order:reversed" : "order:shuffled");
     bool special = false;
     const char* SPECIAL = "'|[]\r\n";
     for (auto& t : c.tests) {
@@ -375,8 +446,6 @@ int run_and_judge(const CaseM& c, bool useKnown, bool& nontrivial) {
     verif::cls(sfmt("suites:%zu", suites > 5 ? 5 : suites).c_str());
     if (nfailed >= 2) verif::cls("2+-failures");
 
-    std::vector<std::string> messages;
-    std::string out = execute(c, messages);
     // failures produced by a real check: the text the framework handed to the output is the original; it has to hold both operands
     {
         size_t k = 0;
@@ -390,8 +459,6 @@ int run_and_judge(const CaseM& c, bool useKnown, bool& nontrivial) {
             k++;
         }
     }
-    if (verif::g_explain) fprintf(stderr, "---- stream ----\n%s----\n", out.c_str());
-
     // walk the lines
     size_t next = 0;   // index of the next expected event
     size_t pos = 0; size_t lineNo = 0;
